@@ -80,7 +80,27 @@ pub fn judge(rep: &mut Report, c: &Case) {
 
 pub fn explore(ctx: &Ctx, shard: usize, n: usize) -> Report {
     let (corpus, _) = harvest(&ctx.repo);
-    drive::cases(ctx, shard, n, RULE, 0x08, 300_000, 80_000_000, |r, rep, _| { let c = gen(r, &corpus); judge(rep, &c); })
+    let mut rep = drive::cases(ctx, shard, n, RULE, 0x08, 300_000, 80_000_000, |r, rep, _| { let c = gen(r, &corpus); judge(rep, &c); });
+    // every single-feature and single-node setter on EVERY segment the notation can write (base + <= 1 diacritic): the place
+    // invariants (no payload under an absent sub-node, never a present-but-empty place) over the whole finite space, plus the
+    // node copied from a neighbour by an alpha
+    let segs = single_segments(1);
+    let mut setters: Vec<String> = Vec::new();
+    for (name, _, _) in crate::c04::F { for sg in ['+', '-'] { setters.push(format!("[] > [{sg}{name}]")); } }
+    for nd in crate::c04::SUBNODES { for sg in ['+', '-'] { setters.push(format!("[] > [{sg}{nd}]")); } }
+    setters.push("[] > [-place]".into());
+    for (k, rule) in setters.iter().enumerate() {
+        if k % n != shard { continue }
+        let Ok(pr) = compile1(rule) else { continue };
+        for (t, w) in &segs {
+            rep.eval(1);
+            if let Applied::Ok(g) = apply(&pr, w) {
+                if let Some(v) = check_word(&g) { let (r2, t2) = (rule.clone(), t.clone()); rep.violation(format!("{} after `{}` (segment sweep)", class(&v), rule), || json!({"case": {"rules": [r2], "word": t2}, "observed": v})); }
+                else if g != *w { rep.nontrivial_enum(1); }
+            }
+        }
+    }
+    rep
 }
 
 pub fn replay(_ctx: &Ctx, case: &Value) -> Report {
